@@ -207,15 +207,13 @@ impl Builtins {
             stack.push((
                 Rc::new(match env.borrow().importer_registry.get_importer(&typ) {
                     Some(importer) => {
-                        let contents = self.get_file_as_string(&path)?;
-                        if contents.is_empty() {
-                            eprintln!("including an empty file. Use NULL as the result");
-                            P(Empty)
-                        } else {
-                            match importer.import(contents.as_bytes()) {
-                                Ok(v) => v.into(),
-                                Err(e) => return Err(Error::new(format!("{}", e).into(), pos)),
-                            }
+                        // Importers work on the raw bytes of the file (base64 of a
+                        // binary file is not text), and decide themselves what an
+                        // empty file means in their format.
+                        let contents = std::fs::read(path.as_ref())?;
+                        match importer.import(&contents) {
+                            Ok(v) => v.into(),
+                            Err(e) => return Err(Error::new(format!("{}", e).into(), pos)),
                         }
                     }
                     None => {
